@@ -61,11 +61,20 @@ def main():
             reports[key] = json.load(open(os.path.join(xdirs[key], 'report.json')))
             if reports[key].get('unknown_l0'):
                 raise P.Infra('lowered code calls primitives that have no L0 semantics: %s' % reports[key]['unknown_l0'])
+        import findings
         jobs = []
+        kf_of = {}
         for u in units:
             key = (u['cfg'], u['elem'])
-            jobs.append((u, 'main', ()))
-            jobs.append((u, 'vacuity', ('-DVAC_NORMAL=0', '-DVAC_EXC=0')))
+            kfs = findings.for_unit(u['id'])
+            kf_of[u['id']] = kfs
+            excl = ()
+            if kfs:
+                excl = ('-DKF_EXCLUDE=(' + ' && '.join('!(%s)' % f['pred'] for f in kfs) + ')',)
+            jobs.append((u, 'main', excl))
+            jobs.append((u, 'vacuity', excl + ('-DVAC_NORMAL=0', '-DVAC_EXC=0')))
+            for f in kfs:
+                jobs.append((u, 'kf:' + f['id'], ('-DKF_EXCLUDE=(%s)' % f['pred'],)))
         results = {}
         def work(job):
             u, variant, defs = job
@@ -82,7 +91,6 @@ def main():
         print('UNDECIDED (infrastructure): %s' % e)
         sys.exit(2)
     # ------------------------------------------------------------------ evaluation
-    import findings
     infra, failures, total, discharged, vac_problems = [], [], 0, 0, []
     samples, fn_under_contract, solver_s, by_unit = [], [], 0.0, {}
     for u in units:
@@ -127,7 +135,20 @@ def main():
         for o in rnd.sample(ok, min(2, len(ok))):
             samples.append({'unit': u['id'], 'obligation': o['name'], 'text': (o['label'] or o['desc'])[:160], 'status': o['status']})
     infra.extend(vac_problems)
-    known_lines, new_failures = findings.triage(prop, failures)
+    # known findings: the excluded input region is re-run on its own; a failure there is the finding still being present
+    known_lines = []
+    for u in units:
+        for f in kf_of.get(u['id'], []):
+            r = results.get((u['id'], 'kf:' + f['id']))
+            if r is None or r['status'] != 'ok':
+                infra.append('%s: known-finding confirmation run %s undecided: %s' % (u['id'], f['id'], (r or {}).get('error')))
+                continue
+            bad = [o for o in r['obligations'] if o['status'] != 'SUCCESS' and relevant(o, prop, u)]
+            if bad and prop in f['properties']:
+                l = '%s [%s; unit %s; input region: %s]' % (f['what'], f['id'], u['id'], f['pred'])
+                if l not in known_lines:
+                    known_lines.append(l)
+    new_failures = failures
     wall = time.time() - t_start
     ev = {
         'property_id': prop, 'tier': args.tier if args.tier in ('quick', 'thorough') else 'quick', 'seed': seed, 'level': 'proof',
